@@ -1,7 +1,7 @@
 /-
 `Path.Apply` succeeds exactly when every step names an existing member, and does
-not panic — for steps whose keys are plain (unmarked, and a known non-null
-number / string payload where the key type is number / string).
+not panic — for every key that is itself a shaped value (marked or not, known,
+unknown or null, of any type).
 -/
 import CtyModel.Lemmas.WalkApply
 namespace CtyModel
@@ -23,11 +23,39 @@ def plainKeys : Path → Bool
   | .getAttr _ :: p => plainKeys p
   | .index k :: p => plainKey k && plainKeys p
 
+/-- does the (unmarked, known, non-null) key name a member: a number key must be a
+whole number within the length of the list (tuple: of the type), a string key a
+key of the map; an unknown list or map has its members by type -/
+def indexExists (k : Value) (v : Value) : Bool :=
+  match k.ty, v.ty with
+  | .number, .list _ =>
+    if v.isKnown then
+      (match keyIndex k, v.v.unmark1 with
+       | .ok (some i), .seq vs => decide (i < vs.length)
+       | _, _ => false)
+    else true
+  | .number, .tuple ts =>
+    (match keyIndex k with
+     | .ok (some i) => decide (i < ts.length)
+     | _ => false)
+  | .string, .map _ =>
+    if v.isKnown then
+      (match k.v, v.v.unmark1 with
+       | .s key, .smap ks _ => ks.contains key
+       | _, _ => false)
+    else true
+  | _, _ => false
+
+/-- a number key fits lists and tuples, a string key fits maps -/
+def kindFits (kt vt : Ty) : Bool :=
+  match kt, vt with
+  | .number, .list _ | .number, .tuple _ | .string, .map _ => true
+  | _, _ => false
+
 /-- **does the step name a member of the value?**  Null has no members; an
-attribute must be declared by the object type; a number key must be a whole
-number within the length of the list (tuple: of the type), a string key a key
-of the map; what is not known has its members by type (any index of an unknown
-list, any key of an unknown map). -/
+attribute must be declared by the object type; a null key names nothing; a known
+key (marks aside) must name a member (`indexExists`); an unknown key of the
+fitting type names no particular member and is accepted. -/
 def stepExists (s : PathStep) (v : Value) : Bool :=
   !v.isNull &&
   match s with
@@ -36,24 +64,7 @@ def stepExists (s : PathStep) (v : Value) : Bool :=
      | .object ns _ _ => ns.contains n
      | _ => false)
   | .index k =>
-    match k.ty, v.ty with
-    | .number, .list _ =>
-      if v.isKnown then
-        (match keyIndex k, v.v.unmark1 with
-         | .ok (some i), .seq vs => decide (i < vs.length)
-         | _, _ => false)
-      else true
-    | .number, .tuple ts =>
-      (match keyIndex k with
-       | .ok (some i) => decide (i < ts.length)
-       | _ => false)
-    | .string, .map _ =>
-      if v.isKnown then
-        (match k.v, v.v.unmark1 with
-         | .s key, .smap ks _ => ks.contains key
-         | _, _ => false)
-      else true
-    | _, _ => false
+    !k.isNull && (if k.isKnown then indexExists k.unmark v else kindFits k.ty v.ty)
 
 /-- the mark prologue with an unmarked key: the operation on the unmarked
 container, then a map that leaves the unmarked value alone -/
@@ -144,16 +155,19 @@ theorem keyIndex_num (x : Num) : ∃ o, keyIndex ⟨.number, .n x⟩ = .ok o := 
 /-- `IndexStep.Apply` once the kind checks have passed, in terms of the answer
 `h0` of `HasIndex` on the unmarked container -/
 theorem apply_index_of (v k h0 : Value) (hnull : v.isNull = false) (hkm : k.isMarked = false)
+    (hkn : k.isNull = false)
     (hty : (k.ty = .number ∧ PathStep.isListOrTuple v.ty = true) ∨
       (k.ty = .string ∧ PathStep.isMap v.ty = true))
     (H : hasIndexU v.unmark k = .ok h0) (hh : h0.unmark = h0) :
     (PathStep.index k).apply v =
-      (if !h0.isKnown then (PathStep.elementType v.ty).map Value.unknown
+      (if !h0.isKnown then
+         (if PathStep.isTuple v.ty then .ok Value.dynVal
+          else (PathStep.elementType v.ty).map Value.unknown)
        else if !h0.isTrue then .err "value does not have given index key"
        else v.index k) := by
   obtain ⟨g, hgu, _, hg⟩ := binMarks_form hasIndexU v k hkm
   have hu : (g h0).unmark = h0 := by rw [hgu, hh]
-  simp only [PathStep.apply, hnull, Bool.false_eq_true, if_false]
+  simp only [PathStep.apply, hnull, hkn, Bool.false_eq_true, if_false]
   rcases hty with ⟨h1, h2⟩ | ⟨h1, h2⟩ <;>
     simp only [h1, h2, if_true, Value.hasIndex, hg, H, Res.map, hu]
 
@@ -189,7 +203,7 @@ theorem unkBool_isKnown : unkBool.isKnown = false := rfl
 theorem index_step_list (e : Ty) (p : Payload) (x : Num)
     (hs : shapedV ⟨.list e, p⟩ = true) (hnull : (⟨.list e, p⟩ : Value).isNull = false) :
     ((PathStep.index ⟨.number, .n x⟩).apply ⟨.list e, p⟩).isOk =
-        stepExists (.index ⟨.number, .n x⟩) ⟨.list e, p⟩ ∧
+        indexExists ⟨.number, .n x⟩ ⟨.list e, p⟩ ∧
       ((PathStep.index ⟨.number, .n x⟩).apply ⟨.list e, p⟩).isPanic = false := by
   have hkm : (⟨.number, .n x⟩ : Value).isMarked = false := rfl
   obtain ⟨o, ho⟩ := keyIndex_num x
@@ -201,8 +215,8 @@ theorem index_step_list (e : Ty) (p : Payload) (x : Num)
   by_cases hk : (⟨.list e, p⟩ : Value).isKnown = true
   · obtain ⟨vs, hv⟩ := shaped_known_cases hsu hmu (raw_of_flags hnull hk).1 (raw_of_flags hnull hk).2
     have hu : (⟨.list e, p⟩ : Value).unmark = ⟨.list e, .seq vs⟩ := by simp only [Value.unmark, hv]
-    rw [apply_index_of _ _ _ hnull hkm hty (by rw [hu]; exact hasIndexU_list_num e vs x o ho) rfl]
-    simp only [stepExists, hnull, hk, ho, hv, Bool.not_false, Bool.true_and, if_true, boolVal_isKnown,
+    rw [apply_index_of _ _ _ hnull hkm rfl hty (by rw [hu]; exact hasIndexU_list_num e vs x o ho) rfl]
+    simp only [indexExists, hk, ho, hv, Bool.not_false, Bool.true_and, if_true, boolVal_isKnown,
       boolVal_isTrue, Bool.not_true, Bool.false_eq_true, if_false]
     cases o with
     | none => simp [Res.isOk, Res.isPanic]
@@ -217,8 +231,8 @@ theorem index_step_list (e : Ty) (p : Payload) (x : Num)
     obtain ⟨r, hr⟩ := unknown_raw hk0
     have hu : (⟨.list e, p⟩ : Value).unmark = ⟨.list e, .unk r⟩ := by
       simp only [Value.unmark]; simp only at hr; rw [hr]
-    rw [apply_index_of _ _ _ hnull hkm hty (by rw [hu]; exact hasIndexU_list_unk e r x) rfl]
-    simp only [stepExists, hnull, hk0, unkBool_isKnown, Bool.not_false, Bool.true_and, if_true,
+    rw [apply_index_of _ _ _ hnull hkm rfl hty (by rw [hu]; exact hasIndexU_list_unk e r x) rfl]
+    simp only [indexExists, hk0, unkBool_isKnown, Bool.not_false, Bool.true_and, if_true, PathStep.isTuple,
       Bool.false_eq_true, if_false]
     exact ⟨rfl, rfl⟩
 
@@ -249,7 +263,7 @@ theorem isPanic_of_isOk {α} {r : Res α} (h : r.isOk = true) : r.isPanic = fals
 theorem index_step_tuple (ts : List Ty) (p : Payload) (x : Num)
     (hs : shapedV ⟨.tuple ts, p⟩ = true) (hnull : (⟨.tuple ts, p⟩ : Value).isNull = false) :
     ((PathStep.index ⟨.number, .n x⟩).apply ⟨.tuple ts, p⟩).isOk =
-        stepExists (.index ⟨.number, .n x⟩) ⟨.tuple ts, p⟩ ∧
+        indexExists ⟨.number, .n x⟩ ⟨.tuple ts, p⟩ ∧
       ((PathStep.index ⟨.number, .n x⟩).apply ⟨.tuple ts, p⟩).isPanic = false := by
   have hkm : (⟨.number, .n x⟩ : Value).isMarked = false := rfl
   obtain ⟨o, ho⟩ := keyIndex_num x
@@ -258,8 +272,8 @@ theorem index_step_tuple (ts : List Ty) (p : Payload) (x : Num)
   have hty : ((⟨.number, .n x⟩ : Value).ty = .number ∧ PathStep.isListOrTuple (⟨.tuple ts, p⟩ : Value).ty = true) ∨
       ((⟨.number, .n x⟩ : Value).ty = .string ∧ PathStep.isMap (⟨.tuple ts, p⟩ : Value).ty = true) :=
     Or.inl ⟨rfl, rfl⟩
-  rw [apply_index_of _ _ _ hnull hkm hty (hasIndexU_tuple_num ts p.unmark1 x o ho) rfl]
-  simp only [stepExists, hnull, ho, Bool.not_false, Bool.true_and, boolVal_isKnown,
+  rw [apply_index_of _ _ _ hnull hkm rfl hty (hasIndexU_tuple_num ts p.unmark1 x o ho) rfl]
+  simp only [indexExists, ho, Bool.not_false, Bool.true_and, boolVal_isKnown,
     boolVal_isTrue, Bool.not_true, Bool.false_eq_true, if_false]
   cases o with
   | none => simp [Res.isOk, Res.isPanic]
@@ -296,7 +310,7 @@ theorem indexU_map_str (e : Ty) (ks : List String) (vs : List Payload) (key : St
 theorem index_step_map (e : Ty) (p : Payload) (key : String)
     (hs : shapedV ⟨.map e, p⟩ = true) (hnull : (⟨.map e, p⟩ : Value).isNull = false) :
     ((PathStep.index ⟨.string, .s key⟩).apply ⟨.map e, p⟩).isOk =
-        stepExists (.index ⟨.string, .s key⟩) ⟨.map e, p⟩ ∧
+        indexExists ⟨.string, .s key⟩ ⟨.map e, p⟩ ∧
       ((PathStep.index ⟨.string, .s key⟩).apply ⟨.map e, p⟩).isPanic = false := by
   have hkm : (⟨.string, .s key⟩ : Value).isMarked = false := rfl
   have hsu : shaped (.map e) p.unmark1 = true := shaped_unmark1 hs
@@ -307,8 +321,8 @@ theorem index_step_map (e : Ty) (p : Payload) (key : String)
   by_cases hk : (⟨.map e, p⟩ : Value).isKnown = true
   · obtain ⟨ks, vs, hv⟩ := shaped_known_cases hsu hmu (raw_of_flags hnull hk).1 (raw_of_flags hnull hk).2
     have hu : (⟨.map e, p⟩ : Value).unmark = ⟨.map e, .smap ks vs⟩ := by simp only [Value.unmark, hv]
-    rw [apply_index_of _ _ _ hnull hkm hty (by rw [hu]; exact hasIndexU_map_str e ks vs key) rfl]
-    simp only [stepExists, hnull, hk, hv, Bool.not_false, Bool.true_and, if_true, boolVal_isKnown,
+    rw [apply_index_of _ _ _ hnull hkm rfl hty (by rw [hu]; exact hasIndexU_map_str e ks vs key) rfl]
+    simp only [indexExists, hk, hv, Bool.not_false, Bool.true_and, if_true, boolVal_isKnown,
       boolVal_isTrue, Bool.not_true, Bool.false_eq_true, if_false]
     by_cases hc : ks.contains key = true
     · have h2 := index_isOk ⟨.map e, p⟩ ⟨.string, .s key⟩ hkm
@@ -322,48 +336,268 @@ theorem index_step_map (e : Ty) (p : Payload) (key : String)
     obtain ⟨r, hr⟩ := unknown_raw hk0
     have hu : (⟨.map e, p⟩ : Value).unmark = ⟨.map e, .unk r⟩ := by
       simp only [Value.unmark]; simp only at hr; rw [hr]
-    rw [apply_index_of _ _ _ hnull hkm hty (by rw [hu]; exact hasIndexU_map_unk e r key) rfl]
-    simp only [stepExists, hnull, hk0, unkBool_isKnown, Bool.not_false, Bool.true_and, if_true,
+    rw [apply_index_of _ _ _ hnull hkm rfl hty (by rw [hu]; exact hasIndexU_map_unk e r key) rfl]
+    simp only [indexExists, hk0, unkBool_isKnown, Bool.not_false, Bool.true_and, if_true, PathStep.isTuple,
       Bool.false_eq_true, if_false]
     exact ⟨rfl, rfl⟩
 
+
+/-! ### keys that carry marks, unknown keys, null keys -/
+
+/-- the mark prologue in general: the operation on both operands unmarked, then a
+map that leaves the unmarked value alone -/
+theorem binMarks_form_gen (f : Value → Value → Res Value) (a k : Value) :
+    ∃ g : Value → Value, (∀ x, (g x).unmark = x.unmark) ∧ (∀ x, (g x).ty = x.ty) ∧
+      binMarks f a k = (f a.unmark k.unmark).map g := by
+  simp only [binMarks]
+  by_cases hm : (a.isMarked || k.isMarked) = true
+  · refine ⟨fun x => x.withMarks (unionMarks a.marks k.marks), fun x => ?_, fun _ => rfl, ?_⟩
+    · simp only [Value.unmark, Value.withMarks, unmark1_withMarks]
+    · simp [hm]
+  · simp only [Bool.or_eq_true, not_or, Bool.not_eq_true] at hm
+    refine ⟨id, fun _ => rfl, fun _ => rfl, ?_⟩
+    simp only [hm.1, hm.2, Bool.or_self, Bool.false_eq_true, if_false, unmark_of_not_marked a hm.1,
+      unmark_of_not_marked k hm.2]
+    cases f a k <;> rfl
+
+theorem unmark_unmark {k : Value} (hs : shapedV k = true) : k.unmark.unmark = k.unmark := by
+  simp only [Value.unmark, unmark1_idem (shaped_unmark1_notMarked hs)]
+
+theorem isNull_unmark {k : Value} (hs : shapedV k = true) : k.unmark.isNull = k.isNull := by
+  simp only [Value.isNull, Payload.isNull, Value.unmark, unmark1_idem (shaped_unmark1_notMarked hs)]
+
+theorem index_core (R I : Res Value) (E : Res Value) (g1 g2 g3 g4 : Value → Value)
+    (hu1 : ∀ x, (g1 x).unmark = x.unmark) (hu2 : ∀ x, (g2 x).unmark = x.unmark) :
+    let body := fun (g g' : Value → Value) =>
+      (match R.map g with
+       | .ok has =>
+         if !has.unmark.isKnown then E
+         else if !has.unmark.isTrue then Res.err "value does not have given index key"
+         else I.map g'
+       | .err c => .err c
+       | .panic w => .panic w
+       | .unmodelled => .unmodelled : Res Value)
+    (body g1 g3).isOk = (body g2 g4).isOk ∧ (body g1 g3).isPanic = (body g2 g4).isPanic := by
+  intro body
+  simp only [body]
+  cases R with
+  | ok h0 =>
+    simp only [Res.map, hu1, hu2]
+    by_cases hk : (!h0.unmark.isKnown) = true
+    · simp only [hk, if_true, and_self]
+    · simp only [hk, Bool.false_eq_true, if_false]
+      by_cases ht : (!h0.unmark.isTrue) = true
+      · simp only [ht, if_true, and_self]
+      · simp only [ht, Bool.false_eq_true, if_false]
+        cases I <;> exact ⟨rfl, rfl⟩
+  | err c => exact ⟨rfl, rfl⟩
+  | panic w => exact ⟨rfl, rfl⟩
+  | unmodelled => exact ⟨rfl, rfl⟩
+
+/-- **marks on the key do not matter** for whether the step succeeds or panics -/
+theorem apply_index_unmark (v k : Value) (hks : shapedV k = true) :
+    ((PathStep.index k).apply v).isOk = ((PathStep.index k.unmark).apply v).isOk ∧
+    ((PathStep.index k).apply v).isPanic = ((PathStep.index k.unmark).apply v).isPanic := by
+  obtain ⟨g1, hu1, _, h1⟩ := binMarks_form_gen hasIndexU v k
+  obtain ⟨g2, hu2, _, h2⟩ := binMarks_form_gen hasIndexU v k.unmark
+  obtain ⟨g3, _, _, h3⟩ := binMarks_form_gen indexU v k
+  obtain ⟨g4, _, _, h4⟩ := binMarks_form_gen indexU v k.unmark
+  rw [unmark_unmark hks] at h2 h4
+  have hty : k.unmark.ty = k.ty := rfl
+  have core := index_core (hasIndexU v.unmark k.unmark) (indexU v.unmark k.unmark)
+    (if PathStep.isTuple v.ty then .ok Value.dynVal else (PathStep.elementType v.ty).map Value.unknown)
+    g1 g2 g3 g4 hu1 hu2
+  simp only [PathStep.apply, hty, isNull_unmark hks, Value.hasIndex, Value.index, h1, h2, h3, h4]
+  by_cases hvn : v.isNull = true
+  · simp only [hvn, if_true, and_self]
+  · simp only [hvn, Bool.false_eq_true, if_false]
+    by_cases hkn : k.isNull = true
+    · simp only [hkn, if_true]
+      cases k.ty <;> first
+        | exact ⟨trivial, trivial⟩
+        | exact ⟨rfl, rfl⟩
+        | (split <;> first | exact ⟨trivial, trivial⟩ | exact ⟨rfl, rfl⟩)
+    · simp only [hkn, Bool.false_eq_true, if_false]
+      cases k.ty <;> first
+        | exact ⟨trivial, trivial⟩
+        | exact ⟨rfl, rfl⟩
+        | (split <;> first | exact core | exact ⟨trivial, trivial⟩ | exact ⟨rfl, rfl⟩)
+
+theorem hasIndexU_unk_num (t : Ty) (raw : Payload) (r : Rfn)
+    (ht : PathStep.isListOrTuple t = true) :
+    hasIndexU ⟨t, raw⟩ ⟨.number, .unk r⟩ = .ok unkBool := by
+  cases t <;> simp [PathStep.isListOrTuple] at ht <;>
+    simp [hasIndexU, Value.isKnown, Payload.isKnown, Payload.unmark1, Ty.isDyn, Ty.isNumber]
+
+theorem hasIndexU_unk_str (e : Ty) (raw : Payload) (r : Rfn) :
+    hasIndexU ⟨.map e, raw⟩ ⟨.string, .unk r⟩ = .ok unkBool := by
+  simp [hasIndexU, Value.isKnown, Payload.isKnown, Payload.unmark1, Ty.isDyn, Ty.isString]
+
+theorem indexExists_other (k v : Value) (h1 : k.ty ≠ .number) (h2 : k.ty ≠ .string) :
+    indexExists k v = false := by
+  obtain ⟨kt, kp⟩ := k
+  cases kt <;> first
+    | exact absurd rfl h1
+    | exact absurd rfl h2
+    | rfl
+
+theorem kindFits_other (kt vt : Ty) (h1 : kt ≠ .number) (h2 : kt ≠ .string) :
+    kindFits kt vt = false := by
+  cases kt <;> first
+    | exact absurd rfl h1
+    | exact absurd rfl h2
+    | rfl
+
+/-- a key that is neither a number nor a string: an error, and it names nothing -/
+theorem index_step_other (v k : Value) (h1 : k.ty ≠ .number) (h2 : k.ty ≠ .string) :
+    ((PathStep.index k).apply v).isOk = stepExists (.index k) v ∧
+      ((PathStep.index k).apply v).isPanic = false := by
+  have hex : stepExists (.index k) v = false := by
+    have h3 : k.unmark.ty ≠ .number := h1
+    have h4 : k.unmark.ty ≠ .string := h2
+    simp only [stepExists, indexExists_other k.unmark v h3 h4, kindFits_other k.ty v.ty h1 h2]
+    simp
+  rw [hex]
+  obtain ⟨kt, kp⟩ := k
+  simp only [PathStep.apply]
+  cases kt <;> first
+    | exact absurd rfl h1
+    | exact absurd rfl h2
+    | (split <;> exact ⟨rfl, rfl⟩)
+
+/-- a null key: an error (no longer a panic), and it names nothing -/
+theorem index_step_null (v k : Value) (hkN : k.isNull = true) :
+    ((PathStep.index k).apply v).isOk = stepExists (.index k) v ∧
+      ((PathStep.index k).apply v).isPanic = false := by
+  have hex : stepExists (.index k) v = false := by
+    simp only [stepExists, hkN]; simp
+  rw [hex]
+  simp only [PathStep.apply, hkN, if_true]
+  split
+  · exact ⟨rfl, rfl⟩
+  · split <;> first
+      | exact ⟨rfl, rfl⟩
+      | (rename_i h; split at h <;> first | (split at h <;> cases h) | cases h)
+
+/-- an unknown number / string key: accepted when the kind fits, with an unknown result -/
+theorem index_step_unknown (v k : Value) (hnull : v.isNull = false) (hkm : k.isMarked = false)
+    (hkn : k.isNull = false) (hkk : k.isKnown = false)
+    (hH : ∀ raw, kindFits k.ty v.ty = true → hasIndexU ⟨v.ty, raw⟩ k = .ok unkBool)
+    (hkt : k.ty = .number ∨ k.ty = .string) :
+    ((PathStep.index k).apply v).isOk = stepExists (.index k) v ∧
+      ((PathStep.index k).apply v).isPanic = false := by
+  have hex : stepExists (.index k) v = kindFits k.ty v.ty := by
+    simp only [stepExists, hnull, hkn, hkk]; simp
+  rw [hex]
+  by_cases hf : kindFits k.ty v.ty = true
+  · have hty : (k.ty = .number ∧ PathStep.isListOrTuple v.ty = true) ∨
+        (k.ty = .string ∧ PathStep.isMap v.ty = true) := by
+      obtain ⟨t, p⟩ := v
+      rcases hkt with h | h <;> rw [h] at hf <;> cases t <;> simp [kindFits] at hf
+      · exact Or.inl ⟨h, rfl⟩
+      · exact Or.inl ⟨h, rfl⟩
+      · exact Or.inr ⟨h, rfl⟩
+    rw [apply_index_of v k unkBool hnull hkm hkn hty (hH _ hf) rfl, hf]
+    simp only [unkBool_isKnown, Bool.not_false, if_true]
+    obtain ⟨t, p⟩ := v
+    rcases hkt with h | h <;> rw [h] at hf <;> cases t <;> simp [kindFits] at hf <;>
+      exact ⟨rfl, rfl⟩
+  · have hf0 : kindFits k.ty v.ty = false := by simpa using hf
+    rw [hf0]
+    simp only [PathStep.apply, hnull, Bool.false_eq_true, if_false]
+    obtain ⟨t, p⟩ := v
+    rcases hkt with h | h <;> rw [h] at hf0 ⊢ <;> cases t <;> simp [kindFits] at hf0 <;>
+      exact ⟨rfl, rfl⟩
+
+/-- the index step with an unmarked shaped key -/
+theorem index_step_unmarked (v : Value) (kt : Ty) (kp : Payload) (hs : shapedV v = true)
+    (hks : shaped kt kp = true) (hkm : kp.isMarked = false) :
+    ((PathStep.index ⟨kt, kp⟩).apply v).isOk = stepExists (.index ⟨kt, kp⟩) v ∧
+      ((PathStep.index ⟨kt, kp⟩).apply v).isPanic = false := by
+  by_cases hnull : v.isNull = true
+  · simp [PathStep.apply, stepExists, hnull, Res.isOk, Res.isPanic]
+  · have hnull' : v.isNull = false := by simpa using hnull
+    cases kt with
+    | number =>
+      cases kp <;> first
+        | (simp [Payload.isMarked] at hkm; done)
+        | (exfalso; exact Bool.noConfusion (show false = true from hks))
+        | skip
+      · exact index_step_null v _ rfl
+      · rename_i r
+        refine index_step_unknown v _ hnull' rfl rfl rfl ?_ (Or.inl rfl)
+        intro raw hf
+        obtain ⟨t, p⟩ := v
+        cases t <;> simp [kindFits] at hf
+        · exact hasIndexU_unk_num _ raw r rfl
+        · exact hasIndexU_unk_num _ raw r rfl
+      · rename_i x
+        have hst : stepExists (.index ⟨.number, .n x⟩) v = indexExists ⟨.number, .n x⟩ v := by
+          have h1 : (⟨.number, .n x⟩ : Value).isNull = false := rfl
+          have h2 : (⟨.number, .n x⟩ : Value).isKnown = true := rfl
+          have h3 : (⟨.number, .n x⟩ : Value).unmark = ⟨.number, .n x⟩ := rfl
+          simp only [stepExists, hnull', h1, h2, h3]; simp
+        rw [hst]
+        obtain ⟨t, p⟩ := v
+        cases t with
+        | list e => exact index_step_list e p x hs hnull'
+        | tuple ts => exact index_step_tuple ts p x hs hnull'
+        | _ =>
+          simp only [PathStep.apply, hnull', indexExists]
+          simp [PathStep.isListOrTuple, Res.isOk, Res.isPanic]
+    | string =>
+      cases kp <;> first
+        | (simp [Payload.isMarked] at hkm; done)
+        | (exfalso; exact Bool.noConfusion (show false = true from hks))
+        | skip
+      · exact index_step_null v _ rfl
+      · rename_i r
+        refine index_step_unknown v _ hnull' rfl rfl rfl ?_ (Or.inr rfl)
+        intro raw hf
+        obtain ⟨t, p⟩ := v
+        cases t <;> simp [kindFits] at hf
+        exact hasIndexU_unk_str _ raw r
+      · rename_i x
+        have hst : stepExists (.index ⟨.string, .s x⟩) v = indexExists ⟨.string, .s x⟩ v := by
+          have h1 : (⟨.string, .s x⟩ : Value).isNull = false := rfl
+          have h2 : (⟨.string, .s x⟩ : Value).isKnown = true := rfl
+          have h3 : (⟨.string, .s x⟩ : Value).unmark = ⟨.string, .s x⟩ := rfl
+          simp only [stepExists, hnull', h1, h2, h3]; simp
+        rw [hst]
+        obtain ⟨t, p⟩ := v
+        cases t with
+        | map e => exact index_step_map e p x hs hnull'
+        | _ =>
+          simp only [PathStep.apply, hnull', indexExists]
+          simp [PathStep.isMap, Res.isOk, Res.isPanic]
+    | _ => exact index_step_other v _ (by simp) (by simp)
+
+/-- `stepExists` does not look at the marks of the key -/
+theorem stepExists_unmark (k v : Value) (hks : shapedV k = true) :
+    stepExists (.index k) v = stepExists (.index k.unmark) v := by
+  have h1 : k.unmark.isKnown = k.isKnown := isKnown_unmark hks
+  have hty : k.unmark.ty = k.ty := rfl
+  simp only [stepExists, isNull_unmark hks, h1, unmark_unmark hks, hty]
+
+/-- every index key of the path is a shaped value (of any type, known or not, marked or not) -/
+def keysShaped : Path → Bool
+  | [] => true
+  | .getAttr _ :: p => keysShaped p
+  | .index k :: p => shapedV k && keysShaped p
+
 /-- **one step succeeds exactly when it names an existing member, and never panics**
-(plain key, shaped value of a well-formed type) -/
+(any shaped key; shaped value of a well-formed type) -/
 theorem step_ok_iff (s : PathStep) (v : Value) (hs : shapedV v = true) (hw : Ty.wf v.ty = true)
-    (hk : (match s with | .index k => plainKey k | .getAttr _ => true) = true) :
+    (hk : (match s with | .index k => shapedV k | .getAttr _ => true) = true) :
     (s.apply v).isOk = stepExists s v ∧ (s.apply v).isPanic = false := by
   cases s with
   | getAttr n => exact getAttr_step v n hs hw
   | index k =>
-    by_cases hnull : v.isNull = true
-    · simp [PathStep.apply, stepExists, hnull, Res.isOk, Res.isPanic]
-    · have hnull' : v.isNull = false := by simpa using hnull
-      obtain ⟨t, p⟩ := v
-      obtain ⟨kt, kp⟩ := k
-      simp only [plainKey, Bool.and_eq_true, Bool.not_eq_true'] at hk
-      have other : ∀ (kt : Ty) (kp : Payload), kt ≠ .number → kt ≠ .string →
-          ((PathStep.index ⟨kt, kp⟩).apply ⟨t, p⟩).isOk = stepExists (.index ⟨kt, kp⟩) ⟨t, p⟩ ∧
-          ((PathStep.index ⟨kt, kp⟩).apply ⟨t, p⟩).isPanic = false := by
-        intro kt kp h1 h2
-        cases kt <;> first
-          | exact absurd rfl h1
-          | exact absurd rfl h2
-          | simp [PathStep.apply, stepExists, hnull', Res.isOk, Res.isPanic]
-      cases kt with
-      | number =>
-        cases kp <;> (try (simp at hk; done))
-        rename_i x
-        cases t with
-        | list e => exact index_step_list e p x hs hnull'
-        | tuple ts => exact index_step_tuple ts p x hs hnull'
-        | _ => simp [PathStep.apply, stepExists, hnull', PathStep.isListOrTuple, Res.isOk, Res.isPanic]
-      | string =>
-        cases kp <;> (try (simp at hk; done))
-        rename_i x
-        cases t with
-        | map e => exact index_step_map e p x hs hnull'
-        | _ => simp [PathStep.apply, stepExists, hnull', PathStep.isMap, Res.isOk, Res.isPanic]
-      | _ => exact other _ _ (by simp) (by simp)
+    have hred := apply_index_unmark v k hk
+    have hun := index_step_unmarked v k.ty k.v.unmark1 hs (shaped_unmark1 hk)
+      (shaped_unmark1_notMarked hk)
+    rw [hred.1, hred.2, stepExists_unmark k v hk]
+    exact hun
 
 end Walk
 end CtyModel
